@@ -62,6 +62,11 @@ var c03DelimPool = []jetrun.Delims{
 	{CLeft: "{{!", CRight: "}}"},
 	{CLeft: "{{!--", CRight: "--}}"},
 	{Left: "[[", Right: "]]", CLeft: "[[#", CRight: "]]"},
+	// the other way round: action delimiters that begin with the comment marker (the longer one is meant again)
+	{Left: "#{", Right: "}", CLeft: "#", CRight: "\n"},
+	{CLeft: "{", CRight: "}"},
+	{Left: "<%", Right: "%>", CLeft: "<", CRight: ">"},
+	{Left: "[[[", Right: "]]]", CLeft: "[[", CRight: "]]"},
 }
 
 func genDelims(t *rapid.T) jetrun.Delims {
@@ -210,6 +215,15 @@ func (c c03Case) normalise() c03Case {
 			for strings.Index(s.Text+d.CR(), d.CR()) != len(s.Text) {
 				i := strings.Index(s.Text+d.CR(), d.CR())
 				s.Text = s.Text[:i] + s.Text[i+1:]
+			}
+			// where the action delimiter begins with the comment marker, a comment whose body completes the
+			// action delimiter is an action by the longest-match reading: such a body is not a comment body
+			for len(d.L()) > len(d.CL()) && strings.HasPrefix(d.L(), d.CL()) && strings.HasPrefix(d.CL()+s.Text+d.CR(), d.L()) {
+				if s.Text == "" {
+					s.Text = " "
+				} else {
+					s.Text = s.Text[1:]
+				}
 			}
 		}
 		segs = append(segs, s)
@@ -478,7 +492,7 @@ func (w *c03Breaking) Write(b []byte) (int, error) {
 
 func TestC03(t *testing.T) {
 	core.Run(t, "C03",
-		"segments (text over whitespace/lone-delimiter/multibyte/Unicode-white-space alphabet, marker actions with independent trim markers, comments) under 22 fixed + random delimiter configurations (options in either order; comment markers that begin with the action delimiter), optional import/extends header, loader readers delivering the source whole / with data+EOF in one Read / byte by byte / in halves; templates that end in text are rendered a second time into a Write-only destination that breaks before the last byte (prefix delivered, Execute reports it); non-trivial = >=2 non-text segments and a text with whitespace next to a trim marker or a lone delimiter byte; distinct by case hash",
+		"segments (text over whitespace/lone-delimiter/multibyte/Unicode-white-space alphabet, marker actions with independent trim markers, comments) under 22 fixed + random delimiter configurations (options in either order; comment markers that begin with the action delimiter), optional import/extends header, loader readers delivering the source whole / with data+EOF in one Read / byte by byte / in halves; templates that end in text are rendered a second time into a Write-only destination that breaks before the last byte (prefix delivered, Execute reports it); also: action delimiters that begin with the comment marker ('#{' with '#', '{{' with '{', '<%' with '<', '[[[' with '[['); non-trivial = >=2 non-text segments and a text with whitespace next to a trim marker or a lone delimiter byte; distinct by case hash",
 		genC03, judgeC03)
 }
 
